@@ -212,6 +212,10 @@ func (s *service) Assigner() (jrpc2.Assigner, error) {
 }
 
 func (s *service) Finish(a jrpc2.Assigner, st jrpc2.ServerStatus) {
+	if s.r.sc.Seed%2 == 1 {
+		// in every other scenario a Finish takes its time (it is parked until the run is drained): Loop has to wait for it
+		s.r.sched.Point("svc.finish")
+	}
 	asg := "?"
 	if ta, ok := a.(tagAssigner); ok {
 		asg = ta.svc.tag
